@@ -146,6 +146,8 @@ func MonCancelStops(a *Analysis, p int64, snapAtCancel State, async bool) []Viol
 	return vs
 }
 
+var errC15Cause = errors.New("operator pulled the plug")
+
 func runC15Case(c *Ctx, idx int) *CaseResult {
 	cr := &CaseResult{}
 	r := c.Rng(idx, 0)
@@ -198,8 +200,13 @@ func runC15Case(c *Ctx, idx int) *CaseResult {
 		// alternate between a cancellation and a deadline that expires at this instant
 		tctx, flavour := newTriggerCtxN(e)
 		cfg := RunCfg{MaxCycle: maxCycle, Ctx: tctx, Cancel: tctx.trigger, CancelAtEvent: e}
+		if e%5 == 4 {
+			// a context cancelled with a cause: Err() is still Canceled, the cause is the caller's own error
+			cctx, cancelCause := context.WithCancelCause(context.Background())
+			cfg.Ctx, cfg.Cancel, flavour = cctx, func() { cancelCause(errC15Cause) }, "cancel_with_cause"
+		}
 		res := Run(kb, prog, CopyStateLive(init), cfg)
-		tctx.trigger()
+		cfg.Cancel()
 		cr.Evals++
 		a := Analyze(prog, res, cfg, nil)
 		var p int64
@@ -295,7 +302,7 @@ func runC15Case(c *Ctx, idx int) *CaseResult {
 		}
 	}
 	// pre-cancelled and expired contexts
-	for k := 0; k < 3; k++ {
+	for k := 0; k < 4; k++ {
 		kb, err := NewInstance(lib)
 		if err != nil {
 			continue
@@ -303,6 +310,10 @@ func runC15Case(c *Ctx, idx int) *CaseResult {
 		var ctx context.Context
 		var cancel context.CancelFunc
 		switch k {
+		case 3:
+			cctx, cancelCause := context.WithCancelCause(context.Background())
+			cancelCause(errC15Cause)
+			ctx, cancel = cctx, func() {}
 		case 0:
 			ctx, cancel = context.WithCancel(context.Background())
 			cancel()
@@ -329,7 +340,7 @@ func runC15Case(c *Ctx, idx int) *CaseResult {
 		if bad != "" {
 			cr.violate(bad, caseDetail(text, "one", init, res, nil))
 		} else {
-			cr.inc([]string{"pre_cancelled_runs", "expired_deadline_runs", "pre_cancelled_with_future_deadline_runs"}[k])
+			cr.inc([]string{"pre_cancelled_runs", "expired_deadline_runs", "pre_cancelled_with_future_deadline_runs", "pre_cancelled_with_cause_runs"}[k])
 		}
 	}
 	// asynchronous part: a second goroutine cancels after a PRNG-chosen number of stamped events
